@@ -1032,13 +1032,15 @@ func (c *Client) trySwitchingProtocol() error {
 	}
 
 	// some Hikvision cameras require a describe before a setup
-	_, _, err := c.doDescribe(c.lastDescribeURL)
-	if err != nil {
-		return err
+	if c.lastDescribeURL != nil {
+		_, _, err := c.doDescribe(c.lastDescribeURL)
+		if err != nil {
+			return err
+		}
 	}
 
 	for i, cm := range prevMedias {
-		_, err = c.doSetup(prevBaseURL, cm.media, 0, 0)
+		_, err := c.doSetup(prevBaseURL, cm.media, 0, 0)
 		if err != nil {
 			return err
 		}
@@ -1049,7 +1051,7 @@ func (c *Client) trySwitchingProtocol() error {
 		}
 	}
 
-	_, err = c.doPlay(c.lastRange)
+	_, err := c.doPlay(c.lastRange)
 	if err != nil {
 		return err
 	}
@@ -1906,9 +1908,11 @@ func (c *Client) doSetup(
 				}
 
 				// some Hikvision cameras require a describe before a setup
-				_, _, err = c.doDescribe(c.lastDescribeURL)
-				if err != nil {
-					return nil, err
+				if c.lastDescribeURL != nil {
+					_, _, err = c.doDescribe(c.lastDescribeURL)
+					if err != nil {
+						return nil, err
+					}
 				}
 
 				return c.doSetup(baseURL, medi, 0, 0)
